@@ -10,6 +10,7 @@
 package c02
 
 import (
+	"strings"
 	"bytes"
 	"encoding/binary"
 	"fmt"
@@ -50,6 +51,7 @@ type scenario struct {
 	Remotes   int     `json:"remotes"`  // number of remote sockets (two per host: same IP, other port)
 	Events    []event `json:"events"`
 	Exhaust   bool    `json:"exhaust"` // first create 16385 mappings towards distinct remote ports
+	TwoIPs    bool    `json:"twoIPs"`  // the NAPT router holds two addresses on its parent network
 }
 
 func gen(r *harn.Rng, tier string) interface{} {
@@ -59,10 +61,14 @@ func gen(r *harn.Rng, tier string) interface{} {
 		sc.OneToOne = r.Range(1, 3)
 		sc.Internal = 2 * sc.OneToOne
 	}
+	if sc.OneToOne == 0 && r.Bool(0.25) {
+		sc.TwoIPs = true
+	}
 	if (tier == "thorough" && r.Bool(0.02)) || r.Bool(0.0015) {
 		sc.Exhaust = true
 		sc.Mapping = 2
 		sc.OneToOne = 0
+		sc.LifeNs = 30000 * 1e6 // the bursts take simulated time; the reused mapping must outlive them
 	}
 	n := r.Range(2, 25)
 	if tier == "thorough" && r.Bool(0.2) {
@@ -85,6 +91,8 @@ func gen(r *harn.Rng, tier string) interface{} {
 				e.Target = "fresh"
 			case 1:
 				e.Target = "unpaired"
+			case 2:
+				e.Target = fmt.Sprintf("alt:%d", r.Intn(6)) // a learned port on another address of the router
 			default:
 				e.Target = fmt.Sprintf("map:%d", r.Intn(6))
 			}
@@ -184,6 +192,11 @@ func run(env *simrt.Env, sci interface{}) {
 			pairExt[loc], pairLoc[ext] = ext, loc
 		}
 	}
+	extIPs := map[string]bool{"1.2.3.1": true}
+	if sc.TwoIPs && sc.OneToOne == 0 {
+		lanCfg.StaticIPs = []string{"1.2.3.1", "1.2.3.2"}
+		extIPs["1.2.3.2"] = true
+	}
 	lan, err := vnet.NewRouter(lanCfg)
 	if err != nil {
 		env.Infra("NewRouter lan: %v", err)
@@ -251,7 +264,11 @@ func run(env *simrt.Env, sci interface{}) {
 			}
 		})
 	}
-	settle := func() { env.QuiesceWithin(time.Microsecond) }
+	// A router that finds a chunk queued during its current pass sleeps for the (virtual) time
+	// the pass has taken so far before it forwards it: "nothing happens any more" therefore
+	// needs a quiet period longer than a pass. Single datagrams: 100 us; bursts: 1 s.
+	quiet := 100 * time.Microsecond
+	settle := func() { env.QuiesceWithin(quiet) }
 
 	var maps []*mappingT          // all mappings ever learned, in order of creation
 	var learned []string          // external addresses learned, in order
@@ -296,9 +313,8 @@ func run(env *simrt.Env, sci interface{}) {
 		}
 		return unknown
 	}
-	extIPs := map[string]bool{"1.2.3.1": true}
-
 	if sc.Exhaust {
+		quiet = time.Second
 		// more mappings than ports in the dynamic range: address-and-port dependent mapping
 		// towards 16385 distinct remote ports
 		src := internals[0]
@@ -320,6 +336,57 @@ func run(env *simrt.Env, sci interface{}) {
 		// new mappings must work again and must carry valid ports
 		env.Sleep(2*L + time.Millisecond)
 		env.Probe("mappings>16384")
+		// ports are being reused now: a new mapping, then every old flow becomes active again
+		// (each gets a new mapping of its own); the new mapping must stay intact
+		if len(internals) > 0 && len(remotes) > 0 {
+			is, rs := internals[len(internals)-1], remotes[0]
+			pl, tag := mkPayload()
+			v0 := env.Now()
+			_, _ = is.conn.WriteTo(append([]byte(nil), pl...), rs.addr)
+			settle()
+			who, srcX, ok := collect(tag, pl)
+			if !ok {
+				return
+			}
+			if len(who) != 1 || who[0] != rs {
+				env.Fail(prop+"/outbound-lost", "after %d expired mappings a datagram from %s to the bound socket %s was received by %d sockets", 16385, is.addr, rs.addr, len(who))
+				return
+			}
+			quiet = time.Millisecond
+			for p := 0; p < 16385; p++ {
+				pl2, _ := mkPayload()
+				_, _ = src.conn.WriteTo(pl2, &net.UDPAddr{IP: net.ParseIP("1.2.3.100"), Port: 20000 + p})
+				if p%64 == 0 {
+					settle()
+				}
+			}
+			quiet = 5 * time.Second
+			settle()
+			for _, s := range all {
+				s.read = len(s.inbox)
+			}
+			if env.Now().Sub(v0) < L-time.Millisecond {
+				x, err := net.ResolveUDPAddr("udp", srcX)
+				if err == nil {
+					pl3, tag3 := mkPayload()
+					_, _ = rs.conn.WriteTo(append([]byte(nil), pl3...), x)
+					quiet = time.Second
+					settle()
+					who, _, ok := collect(tag3, pl3)
+					if !ok {
+						return
+					}
+					if len(who) != 1 || who[0] != is {
+						env.Fail(prop+"/live-mapping-disturbed", "a mapping created for %s on the reused external address %s stopped admitting its own remote %s after %d expired flows were re-activated (received by %d sockets)", is.addr, srcX, rs.addr, 16385, len(who))
+						return
+					}
+					env.Probe("reused-port-intact")
+				}
+			}
+			// forget everything the model learned in this phase: these flows are not part of the history
+			env.Sleep(2*L + time.Millisecond)
+		}
+		quiet = 100 * time.Microsecond
 	}
 
 	for ei, e := range sc.Events {
@@ -484,6 +551,18 @@ func run(env *simrt.Env, sci interface{}) {
 				dst = &net.UDPAddr{IP: net.ParseIP("1.2.3.1"), Port: 40000 + ei}
 			case e.Target == "unpaired":
 				dst = &net.UDPAddr{IP: net.ParseIP("1.2.3.77"), Port: 5000}
+			case strings.HasPrefix(e.Target, "alt:"):
+				if len(learned) == 0 || sc.OneToOne > 0 {
+					continue
+				}
+				var k int
+				fmt.Sscanf(e.Target, "alt:%d", &k)
+				dst, _ = net.ResolveUDPAddr("udp", learned[k%len(learned)])
+				if dst.IP.String() == "1.2.3.1" {
+					dst.IP = net.ParseIP("1.2.3.2")
+				} else {
+					dst.IP = net.ParseIP("1.2.3.1")
+				}
 			case sc.OneToOne > 0:
 				var k int
 				fmt.Sscanf(e.Target, "map:%d", &k)
